@@ -279,7 +279,29 @@ func (n *SimNode) Stop() {
 	if n.Server != nil {
 		done := make(chan struct{})
 		n.EP.Go(func() { defer close(done); _ = n.Server.Close() })
-		<-done
+		select {
+		case <-done:
+		case <-time.After(3 * time.Minute):
+			// a shutdown that never ends is a deadlock inside the node (not one of the checked
+			// properties): recorded with the blocked stacks instead of hanging the run
+			n.W.R.Count("diag_node_close_stuck", 1)
+			buf := make([]byte, 1<<20)
+			buf = buf[:runtime.Stack(buf, true)]
+			var keep []string
+			for _, g := range strings.Split(string(buf), "\n\n") {
+				if strings.Contains(g, "oxia/server") && (strings.Contains(g, "simsync.") || strings.Contains(g, "sync.")) {
+					lines := strings.Split(g, "\n")
+					if len(lines) > 14 {
+						lines = lines[:14]
+					}
+					keep = append(keep, strings.Join(lines, "\n"))
+				}
+				if len(keep) >= 6 {
+					break
+				}
+			}
+			n.W.R.Logf("node %s did not shut down within 3 simulated minutes; goroutines blocked on locks:\n%s", n.EP, strings.Join(keep, "\n\n"))
+		}
 	}
 	n.Tracker.uninstall()
 }
